@@ -242,15 +242,14 @@ func (w *world) setLimit(max int32) {
 	}
 }
 
+// waitLimit waits until the server's own record shows the new limit (it normally does within milliseconds); the answers are judged against
+// the CONFIGURED limit either way, so a server that never takes a change over is rejected by the trace specification, not by the harness
 func (w *world) waitLimit(max int32) {
-	deadline := time.Now().Add(5 * time.Second)
+	deadline := time.Now().Add(2 * time.Second)
 	for {
 		l, _, _, _, err := w.state()
-		if err == nil && l == max {
+		if (err == nil && l == max) || time.Now().After(deadline) {
 			return
-		}
-		if time.Now().After(deadline) {
-			vio.Die("HARNESS-INFRA limit %d was not applied (have %d, %v)", max, l, err)
 		}
 		time.Sleep(200 * time.Microsecond)
 	}
@@ -312,11 +311,11 @@ func run(sc scenario) []event {
 	var events []event
 	for _, r := range sc.Rounds {
 		w.heartbeats()
-		lim, blim, _, pre, err := w.state()
+		_, _, _, pre, err := w.state()
 		if err != nil {
 			vio.Die("HARNESS-INFRA state: %v", err)
 		}
-		ev := event{K: "round", Pre: pre, Limit: lim, Blimit: blim, Type: sc.Type}
+		ev := event{K: "round", Pre: pre, Limit: w.limit, Blimit: w.burst, Type: sc.Type} // the limits as configured, not as the server recorded them
 		var reports []op
 		newLimit := int32(0)
 		for _, o := range r.Ops {
@@ -366,11 +365,11 @@ func run(sc scenario) []event {
 		if newLimit > 0 {
 			w.waitLimit(newLimit)
 		}
-		lim2, _, sum, post, err := w.state()
+		_, _, sum, post, err := w.state()
 		if err != nil {
 			vio.Die("HARNESS-INFRA state: %v", err)
 		}
-		ev.Limit2, ev.Sum, ev.Post, ev.Reports = lim2, sum, post, answers
+		ev.Limit2, ev.Sum, ev.Post, ev.Reports = w.limit, sum, post, answers
 		events = append(events, ev)
 	}
 	return events
